@@ -169,6 +169,10 @@ pub struct FragWriter {
     pub log: Vec<WriteEv>,
     pub flushes: usize,
     pub fruitless_calls: usize,
+    /// A gathering sink: `write_vectored` treats all the slices it is offered as one run of bytes (what a socket, a file
+    /// or a `Cursor` does); otherwise it behaves like the trait's default and looks at the first non-empty slice only.
+    pub gather: bool,
+    pub vectored_calls: usize,
 }
 
 impl FragWriter {
@@ -181,11 +185,27 @@ impl FragWriter {
             log: vec![],
             flushes: 0,
             fruitless_calls: 0,
+            gather: false,
+            vectored_calls: 0,
         }
+    }
+    pub fn gathering(mut self, on: bool) -> FragWriter {
+        self.gather = on;
+        self
     }
 }
 
 impl Write for FragWriter {
+    fn write_vectored(&mut self, bufs: &[io::IoSlice<'_>]) -> io::Result<usize> {
+        self.vectored_calls += 1;
+        if self.gather {
+            let all: Vec<u8> = bufs.iter().flat_map(|b| b.iter().copied()).collect();
+            self.write(&all)
+        } else {
+            let first = bufs.iter().find(|b| !b.is_empty()).map_or(&[][..], |b| &**b);
+            self.write(first)
+        }
+    }
     fn write(&mut self, buf: &[u8]) -> io::Result<usize> {
         let t0 = Instant::now();
         let act = self.script.get(self.calls).copied().unwrap_or(self.default);
@@ -430,6 +450,19 @@ impl Read for InstrPort {
 }
 
 impl Write for InstrPort {
+    fn write_vectored(&mut self, bufs: &[io::IoSlice<'_>]) -> io::Result<usize> {
+        let gather = match &self.wiring {
+            Wiring::Scripted { writer, .. } => writer.gather,
+            Wiring::Link { .. } => false,
+        };
+        if gather {
+            let all: Vec<u8> = bufs.iter().flat_map(|b| b.iter().copied()).collect();
+            self.write(&all)
+        } else {
+            let first = bufs.iter().find(|b| !b.is_empty()).map_or(&[][..], |b| &**b);
+            self.write(first)
+        }
+    }
     fn write(&mut self, buf: &[u8]) -> io::Result<usize> {
         let t0 = Instant::now();
         let stall = self.st.borrow().write_stall;
@@ -620,7 +653,7 @@ impl std::error::Error for WrappedIoBusError {
     }
 }
 
-pub const N_BUS_ERROR_FLAVOURS: u8 = 8;
+pub const N_BUS_ERROR_FLAVOURS: u8 = 10;
 
 /// Concrete type, kind and text of a bus error as the caller of `Sign` gets to see it: a caller that downcasts the source
 /// to decide what to do (reconnect on a timeout, give up on a protocol error) depends on all three.
@@ -636,6 +669,12 @@ pub fn describe_bus_error(e: &(dyn std::error::Error + Send + Sync + 'static)) -
         "ScriptedBusError".to_string()
     } else if let Some(w) = e.downcast_ref::<WrappedIoBusError>() {
         format!("WrappedIoBusError({:?})", w.0.kind())
+    } else if let Some(se) = e.downcast_ref::<flipdot::SignError>() {
+        match se {
+            flipdot::SignError::Bus { source } => format!("SignError::Bus({})", describe_bus_error(source.as_ref())),
+            flipdot::SignError::UnexpectedResponse { expected, actual } => format!("SignError::UnexpectedResponse({} / {})", expected, actual),
+            _ => "SignError(other)".to_string(),
+        }
     } else {
         "some other type".to_string()
     };
@@ -654,7 +693,11 @@ pub fn bus_error(flavour: u8) -> Box<dyn std::error::Error + Send + Sync> {
         5 => Box::new(WrappedIoBusError(Error::new(ErrorKind::UnexpectedEof, "scripted bus error (wrapped eof)"))),
         // what a serial bus really hands up: the frame codec's own error type around the port's error
         6 => Box::new(flipdot_core::FrameError::from(Error::new(ErrorKind::TimedOut, "scripted bus error (frame error, timed out)"))),
-        _ => Box::new(flipdot_core::FrameError::from(Error::new(ErrorKind::Interrupted, "scripted bus error (frame error, interrupted)"))),
+        7 => Box::new(flipdot_core::FrameError::from(Error::new(ErrorKind::Interrupted, "scripted bus error (frame error, interrupted)"))),
+        // what a relaying bus hands up (one that drives a sign further down the line): the controller's own error type —
+        // to this controller it is a bus error like any other, not a verdict about its own conversation
+        8 => Box::new(flipdot::SignError::UnexpectedResponse { expected: "Some(ReportState(Address(3), Unconfigured))".into(), actual: "None".into() }),
+        _ => Box::new(flipdot::SignError::Bus { source: Box::new(ScriptedBusError("scripted bus error (inside a relayed SignError)".into())) }),
     }
 }
 
